@@ -32,9 +32,9 @@ var seqValuesEsc = []string{"x", "hello world", " u ", "1", "2.5", "true", "T", 
 	"<&>\"'", "a&amp;b", "&#x41;", "é€", "l1\nl2", "\ttab", "]]>", "<![CDATA[", "0x1F", "007", "-0", "false", "Infinity", "a<b", "q\"q", "it's", "&", "  ", ""}
 var seqValuesPlain = []string{"x", "hello world", " u ", "1", "2.5", "true", "T", "NaN", "-inf", "1e3",
 	"é€", "l1\nl2", "\ttab", "0x1F", "007", "-0", "false", "Infinity", "a b  c", "  ", ""}
-var seqComments = []string{" note ", "c", "a - b", "x<y&z", ""}
-var seqDirectives = []string{"DOCTYPE doc", "ELEMENT a (b)", "D x"}
-var seqPIs = [][2]string{{"pi", "data"}, {"target", "a=\"1\" b='2'"}, {"php", "echo 1;"}, {"t", ""}}
+var seqComments = []string{" note ", "c", "a - b", "x<y&z", "", " <old>1</old> <old>2</old> ", "a>\n\t<b"}
+var seqDirectives = []string{"DOCTYPE doc", "ELEMENT a (b)", "D x", "DOCTYPE d [<!ENTITY a \"1\"> <!ENTITY b \"2\">]"}
+var seqPIs = [][2]string{{"pi", "data"}, {"target", "a=\"1\" b='2'"}, {"php", "echo 1;"}, {"t", ""}, {"render", "sep=\">  <\""}}
 
 type seqGen struct {
 	maxDepth, maxFan int
